@@ -160,6 +160,12 @@ def run_stv(case):
     el = info["election"]
     tags = stvlib.tags_for(case, el) + ["kind:stv"]
     oracle = []
+    m_ = 1 if case["rule"] == "IRV" else case["cfg"].get("m", 1)
+    prof_ = info["profile"]
+    if isinstance(el, Err) and not isinstance(prof_, Err) and not (1 <= m_ <= len(prof_.candidates)):
+        if el != Err("EValue"):
+            oracle.append(f"seat count out of range raised {el}")
+        return {"model": [mc] if mc else [], "oracle": oracle, "tags": tags + ["m-out-of-range"], "nontrivial": False}
     if isinstance(el, Err):
         oracle_err = f"STV run raised {el}"
         # only boundary-tie ValueErrors are legitimate (C01); everything else is reported
